@@ -48,7 +48,12 @@ def model_int(s, base=10):
         if base == 10:
             if c.branch(n > 4300):
                 raise ValueError("Exceeds the limit (4300 digits) for integer string conversion")
-            return SInt(z3.StrToInt(s.t))
+            v = z3.StrToInt(s.t)
+            if getattr(c, "int_canonical_lemma", False):
+                # true fact about decimal notation, stated for the solver: a digit string without leading zeros
+                # is the canonical text of its value (lets `int(s) == 2` imply `s == "2"`)
+                c.assume_z3(z3.Implies(z3.InRe(s.t, _re(r"0|[1-9][0-9]*")), s.t == z3.IntToStr(v)))
+            return SInt(v)
         if getattr(c, "unroll", False):
             # witness search may restrict inputs: one hex digit, exact value (so that the model replays natively)
             code = z3.StrToCode(s.t)
@@ -63,6 +68,49 @@ def model_int(s, base=10):
                 raise ValueError("Exceeds the limit (4300 digits) for integer string conversion")
         return SInt(PY_INT_VALUE(s.t, z3.IntVal(base)))
     raise ValueError("invalid literal for int() with base %d" % base)
+
+
+def make_int_abs(c, rec=None):
+    """int(text) for this property's units (A-STDLIB), phrased so that no query asks the string solver for a
+    4300-character witness or for digit arithmetic: three outcomes - plain ASCII digits (value = str.to_int(text),
+    used only as an opaque integer term; CPython's digit limit may still raise), another spelling int() accepts
+    (signs, underscores, surrounding whitespace: some integer), anything else ValueError."""
+    from . import rewrite
+    real = rewrite.HELPERS["_pyvc_int"]
+    L = langs()
+
+    def int_abs(x=0, base=10):
+        if not isinstance(x, SStr) or base != 10:
+            return real(x, base)
+        c.use_model("int(text): plain digits -> str.to_int; other accepted spellings -> some integer; else ValueError; digit limit may raise (A-STDLIB)")
+        short = rec is not None and any(x is y for y in rec.get("short_texts", []))     # texts the contract knows to be short
+        if short and any(x is y for y in rec.get("digit_texts", [])):
+            # the contract has assumed this very text to be a short plain digit string: no solver query needed
+            v = z3.StrToInt(x.t)
+            c.assume_z3(v >= 0)
+            rec.setdefault("int_results", []).append((x, SInt(v)))
+            return SInt(v)
+        if c.branch(z3.InRe(x.t, L["pure10"])):
+            if not short and c.choose("int() digit limit hit", [False, True]):
+                # (the limit is 4300 digits; asking the string solver for such a witness is hopeless, and all that
+                #  matters to a caller's contract is that short texts cannot hit it: over-approximated by "> 20")
+                c.assume_z3(z3.Length(x.t) > 20)
+                raise ValueError("Exceeds the limit (4300 digits) for integer string conversion")
+            v = z3.StrToInt(x.t)
+            c.assume_z3(v >= 0)
+            if rec is not None:
+                rec.setdefault("int_results", []).append((x, SInt(v)))
+            return SInt(v)
+        if c.branch(z3.InRe(x.t, L["acc10b"] if x.is_bytes else L["acc10"])):
+            if not short and c.choose("int() digit limit hit", [False, True]):
+                c.assume_z3(z3.Length(x.t) > 20)
+                raise ValueError("Exceeds the limit (4300 digits) for integer string conversion")
+            r = SInt(PY_INT_VALUE(x.t, z3.IntVal(10)))
+            if rec is not None:
+                rec.setdefault("int_results", []).append((x, r))
+            return r
+        raise ValueError("invalid literal for int() with base 10")
+    return int_abs
 
 
 def model_str_of_int(x):
